@@ -173,6 +173,8 @@ def read_rwms(path, prefix, version='2.0', names=None, **kwargs):
                         tmp_nfct = 1.0
                         for j in range(nfct[i]):
                             t = fp.read(8 * nsrc[i])
+                            if len(t) < 8 * nsrc[i]:
+                                raise Exception("Incomplete record for config %d in file %s, the file seems to be truncated." % (config_no, ls[rep]))
                             t = fp.read(8 * nsrc[i])
                             tmp_rw = struct.unpack('d' * nsrc[i], t)
                             tmp_nfct *= np.mean(np.exp(-np.asarray(tmp_rw)))
@@ -359,10 +361,14 @@ def _extract_flowed_energy_density(path, prefix, dtr_read, xmin, spatial_extent,
                 configlist[-1].append(nc)
 
                 t = fp.read(8 * tmax * (nn + 1))
+                if len(t) < 8 * tmax * (nn + 1):
+                    raise Exception("Incomplete record for trajectory %d in file %s, the file seems to be truncated." % (nc, ls[rep]))
                 if kwargs.get('plaquette'):
                     if nc % dtr_read == 0:
                         Ysl.append(struct.unpack('d' * tmax * (nn + 1), t))
                 t = fp.read(8 * tmax * (nn + 1))
+                if len(t) < 8 * tmax * (nn + 1):
+                    raise Exception("Incomplete record for trajectory %d in file %s, the file seems to be truncated." % (nc, ls[rep]))
                 if not kwargs.get('plaquette'):
                     if nc % dtr_read == 0:
                         Ysl.append(struct.unpack('d' * tmax * (nn + 1), t))
@@ -964,8 +970,12 @@ def _read_flow_obs(path, prefix, c, dtr_cnfg=1, version="openQCD", obspos=0, sum
                     traj_list.append(struct.unpack('i', t)[0])
                     # Wsl
                     t = fp.read(8 * tmax * (nn + 1))
+                    if len(t) < 8 * tmax * (nn + 1):
+                        raise Exception("Incomplete record for trajectory %d in file %s, the file seems to be truncated." % (traj_list[-1], file))
                     # Ysl
                     t = fp.read(8 * tmax * (nn + 1))
+                    if len(t) < 8 * tmax * (nn + 1):
+                        raise Exception("Incomplete record for trajectory %d in file %s, the file seems to be truncated." % (traj_list[-1], file))
                     # Qsl, which is asked for in this method
                     t = fp.read(8 * tmax * (nn + 1))
                     # unpack the array of Qtops,
